@@ -246,3 +246,161 @@ Proof.
   destruct (decide (home (keyof a) = i)) as [Hh|Hh], (decide (keyof a = k)) as [Hk|Hk]; subst;
     rewrite ?filter_cons, ?IH; repeat case_decide; done || congruence.
 Qed.
+
+(* ================================================================ the refinement *)
+Section Refine.
+  Context {V P : Type}.
+  Variable X : executor V P.
+  Variable home_s home_b : nat -> list N -> nat.
+  Hypothesis HX : exec_ok X.
+  Hypothesis home_lt : forall n k, (0 < n)%nat -> (home_s n k < n)%nat.
+  Hypothesis home_eq : forall n k, home_b n k = home_s n k.
+  Notation st := (gmap (list N) V).
+  Notation Homed := (Homed home_s).
+  Implicit Types (s : st) (sh : list st) (k : list N).
+
+  Lemma home_some sh k : (0 < List.length sh)%nat -> exists s, sh !! home_s (List.length sh) k = Some s.
+  Proof. intros Hn. apply lookup_lt_is_Some_2. by apply home_lt. Qed.
+
+  Lemma Homed_Disj sh : Homed sh -> Disj sh.
+  Proof.
+    intros HH i j s t Hij Hs Ht. apply map_disjoint_spec. intros k x y Hx Hy.
+    pose proof (HH i s k Hs ltac:(eauto)). pose proof (HH j t k Ht ltac:(eauto)). congruence.
+  Qed.
+
+  Lemma lookup_abs sh s k :
+    Homed sh -> sh !! home_s (List.length sh) k = Some s -> abs sh !! k = s !! k.
+  Proof.
+    intros HH Hs. unfold abs. apply (lookup_union_list_at sh _ s k Hs).
+    intros j t Hj Ht. symmetry. by apply (HH j t k).
+  Qed.
+  Lemma lookup_not_home sh i s k : Homed sh -> sh !! i = Some s -> home_s (List.length sh) k <> i -> s !! k = None.
+  Proof.
+    intros HH Hs Hne. destruct (s !! k) eqn:E; [|done]. exfalso. apply Hne. apply (HH i s k Hs). eauto.
+  Qed.
+
+  (* the shape every state-changing arm has: shard i may change only the keys homed at i *)
+  Lemma family_update sh sh' (T : st) :
+    Homed sh -> List.length sh' = List.length sh -> (0 < List.length sh)%nat ->
+    (forall i s s' k, sh !! i = Some s -> sh' !! i = Some s' ->
+       (home_s (List.length sh) k = i -> s' !! k = T !! k) /\
+       (home_s (List.length sh) k <> i -> s' !! k = s !! k)) ->
+    Homed sh' /\ abs sh' = T.
+  Proof.
+    intros HH Hlen Hn Hpt.
+    assert (Homed sh') as HH'.
+    { intros i s' k Hs' Hsome. rewrite Hlen.
+      destruct (lookup_lt_is_Some_2 sh i) as [s Hs]. { rewrite <- Hlen. by eapply lookup_lt_Some. }
+      destruct (decide (home_s (List.length sh) k = i)) as [|Hne]; [done|].
+      destruct (Hpt i s s' k Hs Hs') as [_ H2]. rewrite (H2 Hne) in Hsome.
+      rewrite (lookup_not_home sh i s k HH Hs Hne) in Hsome. by destruct Hsome. }
+    split; [done|]. apply map_eq; intros k.
+    destruct (home_some sh' k) as [s' Hs']; [lia|].
+    rewrite (lookup_abs sh' s' k HH' Hs'). rewrite Hlen in Hs'.
+    destruct (home_some sh k Hn) as [s Hs].
+    by destruct (Hpt _ s s' k Hs Hs') as [H1 _]; apply H1.
+  Qed.
+
+  (* ---------------------------------------------------------------- run_batches *)
+  Section RunBatches.
+    Context {A : Type}.
+    Variable keyof : A -> list N.
+    Variable run : st -> list A -> st * list reply.
+    Variable upd : list N -> option V -> list A -> option V.
+    Hypothesis run_pt : forall s b k, (run s b).1 !! k = upd k (s !! k) (filter (fun a => keyof a = k) b).
+    Hypothesis upd_nil : forall k o, upd k o [] = o.
+
+    Let F (n : nat) (items : list A) (i : nat) (s : st) : st * option (list nat * list reply) :=
+      let b := batch_of (fun a => home_s n (keyof a)) i items in
+      match b with
+      | [] => (s, None)
+      | _ => let '(s', rs) := run s (b.*2) in (s', Some (b.*1, rs))
+      end.
+
+    Lemma run_batches_unfold (n : nat) (items : list A) sh :
+      run_batches (fun a => home_s n (keyof a)) run items sh = ((imap (F n items) sh).*1, omap snd (imap (F n items) sh)).
+    Proof. reflexivity. Qed.
+
+    Lemma F_fst (n : nat) (items : list A) (i : nat) s :
+      (F n items i s).1 = (run s (batch_of (fun a => home_s n (keyof a)) i items).*2).1 \/
+      ((F n items i s).1 = s /\ batch_of (fun a => home_s n (keyof a)) i items = []).
+    Proof.
+      unfold F. destruct (batch_of _ i items) as [|p b] eqn:E; [right; done|left].
+      by destruct (run s _).
+    Qed.
+
+    Lemma F_lookup (n : nat) (items : list A) (i : nat) s k :
+      (F n items i s).1 !! k =
+      if decide (home_s n k = i) then upd k (s !! k) (filter (fun a => keyof a = k) items) else s !! k.
+    Proof.
+      assert (upd k (s !! k) (filter (fun a => keyof a = k) (batch_of (fun a => home_s n (keyof a)) i items).*2)
+              = if decide (home_s n k = i) then upd k (s !! k) (filter (fun a => keyof a = k) items) else s !! k) as Hgen.
+      { rewrite batch_of_snd. rewrite (filter_key_batch keyof (home_s n)).
+        destruct (decide _); [done|]. apply upd_nil. }
+      destruct (F_fst n items i s) as [->|[-> Hb]].
+      - by rewrite run_pt.
+      - rewrite <- Hgen, Hb. cbn. by rewrite upd_nil.
+    Qed.
+
+    Lemma run_batches_state (items : list A) sh (T : st) :
+      Homed sh -> (0 < List.length sh)%nat ->
+      (forall k, T !! k = upd k (abs sh !! k) (filter (fun a => keyof a = k) items)) ->
+      let sh' := (run_batches (fun a => home_s (List.length sh) (keyof a)) run items sh).1 in
+      Homed sh' /\ abs sh' = T /\ List.length sh' = List.length sh.
+    Proof.
+      intros HH Hn HT sh'.
+      assert (List.length sh' = List.length sh) as Hlen.
+      { unfold sh'. rewrite run_batches_unfold. cbn. by rewrite fmap_length, imap_length. }
+      destruct (family_update sh sh' T HH Hlen Hn) as [H1 H2]; [|done].
+      intros i s s' k Hs Hs'. unfold sh' in Hs'. rewrite run_batches_unfold in Hs'. cbn in Hs'.
+      rewrite list_lookup_fmap, list_lookup_imap, Hs in Hs'. cbn in Hs'. inversion Hs'; subst s'.
+      rewrite F_lookup. split; intros Hh.
+      - rewrite decide_True by done. rewrite HT. subst i. by rewrite (lookup_abs sh s k HH Hs).
+      - by rewrite decide_False.
+    Qed.
+
+    (* what the shards answered: one entry per shard with a non-empty batch *)
+    Lemma run_batches_outs_sound (items : list A) sh o :
+      o ∈ (run_batches (fun a => home_s (List.length sh) (keyof a)) run items sh).2 ->
+      exists i s, sh !! i = Some s /\
+        let b := batch_of (fun a => home_s (List.length sh) (keyof a)) i items in
+        b <> [] /\ o = (b.*1, (run s b.*2).2).
+    Proof.
+      rewrite run_batches_unfold. cbn. rewrite elem_of_list_omap. intros [x [Hx Ho]].
+      apply elem_of_lookup_imap in Hx as [i [s [-> Hs]]]. exists i, s. split; [done|].
+      unfold F in Ho. destruct (batch_of _ i items) as [|p b] eqn:E; [done|].
+      remember (run s (p :: b).*2) as rr eqn:E2. destruct rr as [s1 rs1]. cbn in Ho. inversion Ho; subst. done.
+    Qed.
+    Lemma run_batches_outs_complete (items : list A) sh (i : nat) s :
+      sh !! i = Some s ->
+      let b := batch_of (fun a => home_s (List.length sh) (keyof a)) i items in
+      b <> [] -> (b.*1, (run s b.*2).2) ∈ (run_batches (fun a => home_s (List.length sh) (keyof a)) run items sh).2.
+    Proof.
+      intros Hs b Hb. rewrite run_batches_unfold. cbn. rewrite elem_of_list_omap.
+      exists (F (List.length sh) items i s). split; [by apply elem_of_lookup_imap_2|].
+      unfold F. fold b. destruct b as [|p b'] eqn:E; [done|]. by destruct (run s _).
+    Qed.
+
+    (* replies written back by original index: if every shard answers [G] of each item of its
+       batch, the result is [G] of each item *)
+    Lemma run_batches_write_back (G : A -> reply) init (items : list A) sh :
+      (0 < List.length sh)%nat ->
+      (forall i s, sh !! i = Some s ->
+         let b := batch_of (fun a => home_s (List.length sh) (keyof a)) i items in
+         (run s b.*2).2 = G <$> b.*2) ->
+      write_back init (List.length items) (run_batches (fun a => home_s (List.length sh) (keyof a)) run items sh).2
+      = G <$> items.
+    Proof.
+      intros Hn HG. apply write_back_spec.
+      - intros o j v Ho Hin. apply run_batches_outs_sound in Ho as [i [s [Hs [Hb ->]]]]. cbn in Hin.
+        rewrite (HG i s Hs), zip_fst_snd_fmap in Hin. apply elem_of_list_fmap in Hin as [[j' a] [Heq Hin]].
+        cbn in Heq. inversion Heq; subst. apply elem_of_batch_of in Hin as [Hl _]. eauto.
+      - intros j a Hl. destruct (home_some sh (keyof a) Hn) as [s Hs].
+        set (i := home_s (List.length sh) (keyof a)) in *.
+        assert ((j, a) ∈ batch_of (fun a => home_s (List.length sh) (keyof a)) i items) as Hin
+          by (apply elem_of_batch_of; done).
+        eexists. split.
+        + apply (run_batches_outs_complete items sh i s Hs). intros E. rewrite E in Hin. by apply elem_of_nil in Hin.
+        + cbn. rewrite (HG i s Hs), zip_fst_snd_fmap. apply elem_of_list_fmap. by exists (j, a).
+    Qed.
+  End RunBatches.
